@@ -534,6 +534,10 @@ func RunOnce(t *kernel.Tape, opt core.Opts) *core.Outcome {
 	}
 	if !res.Deadlock && !res.Budget {
 		r.check()
+		// every reader was closed by its consumer: nothing the operators created may stay open
+		if open := core.OpenStreams(s.Events()); len(open) > 0 {
+			o.Violate("C08/stream-neither-closed-nor-drained", strings.Join(open, "; "))
+		}
 	}
 	for _, n := range r.nodes {
 		o.Stat("node."+kindNames[n.kind], 1)
